@@ -2,7 +2,7 @@
    per-class tables are the GENERATED class_table (translator T2 reads _req_shape, _req_dtype and the constructor signatures
    from core.py on every run). *)
 From Coq Require Import ZArith String List Bool.
-From PB Require Import Gen.GenConsts Model.Contract Proofs.ContractProofs.
+From PB Require Import Gen.GenConsts Model.Contract Proofs.ContractProofs Gen.GenContract Proofs.ContractGen.
 Import ListNotations.
 Open Scope string_scope.
 
@@ -55,6 +55,17 @@ Example C16_witness :
   construct "DualPolarizationSignal" {| a_shape := [8; 3; 2]%Z; a_dtype := "float32"; a_rate := q QZero 1; a_start := TNone; a_meta := MDict;
               a_center := q QNeg 2; a_bw := q QPos 3; a_align := "top"; a_pol := "linear" |} = Err.
 Proof. vm_compute. repeat split; reflexivity. Qed.
+
+(* tie to the source (T16): the validation statements the constructor model transcribes - Signal.__init__ (dimension count, required
+   shape, non-empty sample shape, dtype admission with its safe cast, the assignments through the setters) and the setters of
+   sample_rate, start_time, meta, center_freq, chan_bw, freq_align (odd-nchan normalisation after the validity test) and pol_type - are
+   pinned as syntax trees re-read from core.py on every run (raise messages ignored) *)
+Theorem C16_generated_statements :
+  gen_Signal_init_as_modelled = true /\ gen_Signal_sample_rate_setter_as_modelled = true /\
+  gen_Signal_start_time_setter_as_modelled = true /\ gen_Signal_meta_setter_as_modelled = true /\
+  gen_RadioSignal_center_freq_setter_as_modelled = true /\ gen_RadioSignal_chan_bw_setter_as_modelled = true /\
+  gen_RadioSignal_freq_align_setter_as_modelled = true /\ gen_DualPolarizationSignal_pol_type_setter_as_modelled = true.
+Proof. exact contract_statements_generated. Qed.
 
 Print Assumptions C16_invariant.
 Print Assumptions C16_violations_refused.
